@@ -135,7 +135,19 @@ pub fn unbounded_class(case: &Case, out: &Outcome) -> &'static str {
         Some(h) if h >= tb => "handshake",
         _ => {
             if out.shared.jobs.iter().all(|j| j.kind == "Hang" || j.done_ms.is_some_and(|d| d < tb)) {
-                "quiescent"
+                // The applications were done, but an endpoint may still have had unacknowledged packets in flight
+                // (the last acknowledgements died with the network).  Such an endpoint is recognisable on the
+                // wire: it was not told and it keeps retransmitting long after T_b - that is the data-in-flight
+                // class.  A quiescent endpoint is silent.
+                let settle = tb + 3000;
+                let still_sending = |addr: std::net::SocketAddr| out.net.with(|n| n.sent.iter().filter(|e| e.src == addr && e.t.as_millis() as u64 > settle).count()) >= 3;
+                let client_untold = out.shared.client_term.is_none();
+                let server_untold = out.shared.server_term.is_none() && out.shared.accepted_conns > 0;
+                if (client_untold && still_sending(crate::world::client_addr())) || (server_untold && still_sending(crate::world::server_addr())) {
+                    "data-in-flight"
+                } else {
+                    "quiescent"
+                }
             } else {
                 "data-in-flight"
             }
